@@ -109,8 +109,9 @@ class ImmutableDict(Mapping[Any, Any]):
         """Initialize."""
 
         self._validate(arg)
-        self._d = dict(arg)
-        self._hash = hash(tuple([(type(x), x, type(y), y) for x, y in sorted(self._d.items())]))
+        d = dict(arg)
+        super().__setattr__('_d', d)
+        super().__setattr__('_hash', hash(tuple([(type(x), x, type(y), y) for x, y in sorted(d.items())])))
 
     def _validate(self, arg: dict[Any, Any] | Iterable[tuple[Any, Any]]) -> None:
         """Validate arguments."""
@@ -120,6 +121,16 @@ class ImmutableDict(Mapping[Any, Any]):
                 raise TypeError(f'{self.__class__.__name__} values must be hashable')
         elif not all(isinstance(k, Hashable) and isinstance(v, Hashable) for k, v in arg):
             raise TypeError(f'{self.__class__.__name__} values must be hashable')
+
+    def __setattr__(self, name: str, value: Any) -> None:
+        """Prevent mutability."""
+
+        raise AttributeError(f"'{self.__class__.__name__}' is immutable")
+
+    def __delattr__(self, name: str) -> None:
+        """Prevent mutability."""
+
+        raise AttributeError(f"'{self.__class__.__name__}' is immutable")
 
     def __iter__(self) -> Iterator[Any]:
         """Iterator."""
